@@ -120,7 +120,7 @@ def one_case(task):
             return {"seed": seed, "error": f"{type(e).__name__}: {e}", "tb": traceback.format_exc()[-1500:]}
         res.pop("api", None)
         second = None
-        if res["outcome"] == "ok" and rng.random() < 0.34:
+        if res["outcome"] == "ok" and rng.random() < 0.5:
             # C16: the CLI a second time into the same, now populated, output directory
             r2 = e2e.run_tool(_impl(), src, top / "out", **o)
             second = {"outcome": r2["outcome"], "files": r2["files"]}
@@ -146,6 +146,17 @@ def compare(ctx, r, m) -> None:
     rep = ctx.rep
     inp = {"stage": "S-P", "seed": r["seed"], "style": r["style"], "options": r["options"], "above": r["above"]}
     impl, obs = r["impl"], r["obs"]
+    # C15: with the flag off no module of a test/tests/docs directory is walked (even when mypy reached it through an import)
+    if not r["inp"]["test_run"] and obs.get("walked"):
+        src_parts = len(r["inp"]["src_dir"])
+        for pth in obs["walked"]:
+            rel = pth.strip("/").split("/")[src_parts - 1:]
+            if set(rel) & {"test", "tests", "docs"}:
+                ctx.oracle_failure("C15", f"module of a test/docs directory analysed without the flag: {'/'.join(rel)}",
+                                   {**inp, "path": pth})
+                break
+    if r.get("second") is not None:
+        r["_first_files"] = dict(impl["files"])
     io = impl["outcome"]
     iout = ("ok",) if io == "ok" else ("exc", "ValueError") if io == "NoFiles" else ("exc", impl.get("exc"))
     mout = ("ok",) if m.get("ok") else ("exc", m.get("err"))
@@ -194,8 +205,6 @@ def compare(ctx, r, m) -> None:
         ctx.disagree("S-P/warnings", inp, wm[:4], wi[:4])
         return
     rep.bump("sp_outcome", "whole_tool_byte_exact")
-    if r.get("second") is not None:
-        r["_first_files"] = dict(impl["files"])
 
 
 def run(ctx) -> None:
@@ -267,5 +276,9 @@ def run(ctx) -> None:
             rep.bump("sp_outcome", "second_run_byte_exact")
         if sec["files"] != r["_first_files"]:
             bad = [p for p in sorted(set(sec["files"]) | set(r["_first_files"])) if sec["files"].get(p) != r["_first_files"].get(p)]
-            ctx.oracle_failure("C16", f"a second run of the whole tool into the same output directory changed {bad[:3]}",
-                               {**inp, "paths": bad[:5]})
+            for prop in ("C16", "C08"):
+                # C16: independence of earlier generations; C08: the output is a function of package and options — also
+                # between repeated runs into the same directory
+                ctx.oracle_failure(prop, f"a second run of the whole tool into the same output directory changed {bad[:3]}",
+                                   {**inp, "paths": bad[:5], "first": {p: r["_first_files"].get(p) for p in bad[:1]},
+                                    "second": {p: sec["files"].get(p) for p in bad[:1]}})
